@@ -62,7 +62,49 @@ def run(pid, tier, seed):
     return fam_batch.finish(pid, tier, seed, d, t0, [(fam, part)])
 
 
+def collect_defaults(pid, tier, seed, d, binp):
+    """Partial nodes (FlytDefaults.tla): TLC checks the table's consistency and enumerates its cells; every cell is built
+    and run on the real library; TLC judges the logged facts against the cell."""
+    lines, wall = run_tlc(d, "FlytDefaults", "SPECIFICATION DSpec\nINVARIANTS DCellInv ExportCell\nCHECK_DEADLOCK FALSE\n", workers=4, heap="2g",
+                          tag="mc_defaults", timeout=600)
+    st = tlc_stats(lines)
+    ex = export_lines(lines)
+    log("mc FlytDefaults: cells=%d (%.1fs)" % (len(ex), wall))
+    scnp = os.path.join(d, "defaults_scenarios.ndjson")
+    with open(scnp, "w") as f:
+        for s in ex:
+            f.write(s + "\n")
+    hist = os.path.join(d, "defaults_hist.ndjson")
+    run_harness(binp, ["defaults", "--out", hist, "--scn", scnp])
+    fails, _, summ = judge_histories(d, "TPTables", hist, pid, shards=2)
+    log("judged %d partial-node cells: %d failing" % (summ.get("scenarios", 0), len(fails)))
+    violations, known_hits = [], {}
+    if fails:
+        scns = load_scenarios(hist)
+        known = known_signatures(pid)
+        for scn_id, prop, clauses in fails:
+            r = scns[scn_id]
+            e = r["h"][0]
+            sig = "%s:%s:%s" % (pid, "+".join(sorted(clauses)), e["kind"])
+            if sig in known:
+                known_hits[sig] = known[sig]
+            else:
+                violations.append({"property": pid, "family": "defaults", "clauses": clauses, "signature": sig, "scenario": r})
+    samples = []
+    with open(hist) as f:
+        for i, line in enumerate(f):
+            if i % 97 == 0 and len(samples) < 3:
+                samples.append(json.loads(line)["h"][0])
+    return dict(states=st["distinct"], transitions=st["generated"], scenarios=summ.get("scenarios", 0), events=summ.get("events", 0),
+                hits={"partial_node_cells": summ.get("scenarios", 0)}, violations=violations, known_hits=known_hits, drifts=0,
+                mc_info=[{"spec": "FlytDefaults", "distinct_states": st["distinct"], "cells_exported": len(ex), "wall_s": round(wall, 1)}],
+                samples=samples, exported=len(ex), modes="every cell of the table", count=len(ex))
+
+
 def replay(bundle):
     pid, fam = bundle["property"], bundle["family"]
+    if fam == "defaults":
+        import fam_engine
+        return fam_engine.run(pid, "quick", 1)
     log("table scenarios are deterministic: re-running the whole check for %s" % pid)
     return run(pid, "quick", 1)
